@@ -724,6 +724,7 @@ Definition tuple_data_size (pts : option ppn) (xs ys : list Z) : option Z :=
 (* GlyphDeltas::pick_best_point_number_repr ; None = panic *)
 Definition pick_best_point_number_repr (ds : list gdelta) : option ppn :=
   if forallb gd_req ds then Some PAll
+  else if negb (existsb gd_req ds) then Some PAll     (* no required delta: dense (fix of finding F-C10-1) *)
   else
     let req := filter gd_req ds in
     do dense <- tuple_data_size (Some PAll) (map gd_x ds) (map gd_y ds) ;;
